@@ -15,6 +15,59 @@ fn main() {
         }
         return;
     }
+    if args.len() >= 3 && args[1] == "--sweep" {
+        // oracle self-test (sampling; decides nothing): run the native body on every draw vector over a
+        // small alphabet and report any failing assertion
+        let name = &args[2];
+        let body = match reg.iter().find(|(n, _)| n == name) {
+            Some((_, b)) => *b,
+            None => {
+                eprintln!("unknown harness {name}");
+                std::process::exit(64);
+            }
+        };
+        let budget: u64 = args.get(3).and_then(|s| s.parse().ok()).unwrap_or(300_000);
+        let mut probe = cvh::sym::QueueSrc::new(vec![]);
+        let _ = panic::catch_unwind(panic::AssertUnwindSafe(|| body(&mut probe)));
+        let _ = cvh::sym::native::take();
+        let k = probe.pos;
+        let mut a: u64 = 2;
+        while (a + 1).pow(k as u32) <= budget && a < 6 {
+            a += 1;
+        }
+        let total = a.pow(k as u32);
+        let (mut runs, mut skipped, mut bad) = (0u64, 0u64, 0u64);
+        let mut v = vec![0u8; k];
+        panic::set_hook(Box::new(|_| {}));
+        let mut idx: u64 = 0;
+        while idx < total && idx < budget * 4 {
+            let mut r = idx;
+            for slot in v.iter_mut() {
+                *slot = (r % a) as u8;
+                r /= a;
+            }
+            let vals: Vec<Vec<u8>> = v.iter().map(|b| vec![*b]).collect();
+            let res = panic::catch_unwind(move || {
+                let mut src = cvh::sym::QueueSrc::new(vals);
+                body(&mut src);
+            });
+            let log = cvh::sym::native::take();
+            if !log.assume_violated.is_empty() {
+                skipped += 1;
+            } else {
+                runs += 1;
+                if res.is_err() || !log.failed.is_empty() {
+                    bad += 1;
+                    if bad <= 5 {
+                        println!("SWEEP-FAIL harness={name} draws={:?} panic={} failed={:?}", v, res.is_err(), log.failed);
+                    }
+                }
+            }
+            idx += 1;
+        }
+        println!("SWEEP harness={name} draws={k} alphabet={a} runs={runs} skipped={skipped} failing={bad}");
+        std::process::exit(if bad == 0 { 0 } else { 1 });
+    }
     if args.len() < 3 {
         eprintln!("usage: cvh-replay <harness> <b0,b1,...>");
         std::process::exit(64);
